@@ -45,7 +45,7 @@ Proof. reflexivity. Qed.
 (* first complete evaluation of let(T, None): what step does for QueryE; later evaluations: EvalV on a cached variable *)
 Lemma gen_eval_fresh children fuel L r T :
   g_eval_fresh children fuel L r T =
-  (sweep L r, instances children fuel L (sweep L r) T, dedup (somes (instances children fuel L (sweep L r) T))).
+  (sweep L r, dedupo (instances children fuel L (sweep L r) T), dedup (somes (instances children fuel L (sweep L r) T))).
 Proof. unfold g_eval_fresh. now rewrite gen_instances. Qed.
 
 Definition GenIsModel : Prop :=
@@ -60,7 +60,7 @@ Definition GenIsModel : Prop :=
   (forall r x i, g_new r x i = add_node r (W (o_id x) (o_cls x) (o_pyid x) i)) /\
   (forall r, g_clear r = empty_reg) /\
   (forall children fuel L r T, g_eval_fresh children fuel L r T =
-     (sweep L r, instances children fuel L (sweep L r) T, dedup (somes (instances children fuel L (sweep L r) T)))).
+     (sweep L r, dedupo (instances children fuel L (sweep L r) T), dedup (somes (instances children fuel L (sweep L r) T)))).
 
 Theorem gen_is_model : GenIsModel.
 Proof.
